@@ -376,7 +376,7 @@ def scenario_robust(exe, mode_arg, payload):
             n += 1
             m = robust_case(exe, name, lang)
             if m:
-                witness({'input_name': name, 'lang': lang, 'source': ROBUST[name]}, m)
+                witness({'input_name': name, 'lang': lang, 'source': ROBUST.get(name, '150 files, one annotated struct each')}, m)
     print('no failing input among %d (edge input, language) runs' % n)
 
 
